@@ -16,6 +16,7 @@ func init() {
 	vrt.Register("C01_html_typed_helpers", HTMLTypedHelpers)
 	vrt.Register("C01_named_string_types", NamedStringTypes)
 	vrt.Register("C01_stored_in_html_typed", StoredInHTMLTyped)
+	vrt.Register("C01_sequences_of_kinds", SequencesOfKinds)
 }
 
 type holder struct {
@@ -453,4 +454,113 @@ func StoredInHTMLTyped() {
 	vrt.Assert(safe(r), "a string stored into an HTML-typed container is not emitted verbatim")
 	vrt.Assert(decodesTo(r, p), "the stored string is printed, escaped")
 	vrt.Cover("accepted")
+}
+
+// ---- the decision "escape or verbatim" is made for each value that is written,
+// not once per type or per tag: sequences of 2-3 output tags (in one render and
+// across two renders) whose values have the same Go type but hold different
+// kinds - a wrapper with an Interface() method (nulls-style) holding trusted
+// HTML, an untrusted string, nil, a number; an interface-typed struct field; a
+// []interface{} element - every untrusted string comes out escaped, every
+// trusted value verbatim once, whatever was written before it
+type wrap struct{ v interface{} }
+
+func (w wrap) Interface() interface{} { return w.v }
+
+type anyHolder struct{ V interface{} }
+
+func SequencesOfKinds() {
+	p := payload()
+	for i := 0; i < len(p); i++ {
+		vrt.Assume(p[i] != ']') // the bracket delimits the regions below
+	}
+	const trusted = "<b>T</b>"
+	mk := func(kind int) interface{} {
+		switch kind {
+		case 0:
+			return template.HTML(trusted)
+		case 1:
+			return p
+		case 2:
+			return nil
+		case 3:
+			return 7
+		}
+		return htmler{trusted}
+	}
+	n := 2 + vrt.Choice(2)
+	kinds := make([]int, n)
+	for i := range kinds {
+		kinds[i] = vrt.Choice(5)
+	}
+	carrier := vrt.Choice(3)
+	ctx := plush.NewContext()
+	in := ""
+	for i, k := range kinds {
+		name := "a" + string(rune('0'+i))
+		switch carrier {
+		case 0:
+			ctx.Set(name, wrap{mk(k)})
+			in += "[<%= " + name + " %>]"
+		case 1:
+			ctx.Set(name, anyHolder{mk(k)})
+			in += "[<%= " + name + ".V %>]"
+		default:
+			ctx.Set(name, []interface{}{mk(k)})
+			in += "[<%= " + name + "[0] %>]"
+		}
+	}
+	split := vrt.Choice(2) == 1 // the last tag in a second render of its own
+	var got string
+	var err error
+	vrt.Note("input", in)
+	if split {
+		cut := len(in) - len("[<%= a0 %>]")
+		if carrier == 1 {
+			cut = len(in) - len("[<%= a0.V %>]")
+		} else if carrier == 2 {
+			cut = len(in) - len("[<%= a0[0] %>]")
+		}
+		var g1, g2 string
+		g1, err = plush.Render(in[:cut], ctx)
+		if err == nil {
+			g2, err = plush.Render(in[cut:], ctx)
+		}
+		got = g1 + g2
+	} else {
+		got, err = plush.Render(in, ctx)
+	}
+	vrt.Note("got", got)
+	if err != nil {
+		// a nil held by a field or element may be refused; that is not an escaping matter
+		vrt.Cover("error")
+		return
+	}
+	// walk the output: [ region ] per tag
+	rest := got
+	for _, k := range kinds {
+		vrt.Assert(len(rest) >= 2 && rest[0] == '[', "every output tag contributes its bracketed region")
+		rest = rest[1:]
+		switch k {
+		case 0, 4:
+			vrt.Assert(len(rest) >= len(trusted)+1 && rest[:len(trusted)] == trusted && rest[len(trusted)] == ']', "a trusted value is emitted verbatim, exactly once, whatever was written before it")
+			rest = rest[len(trusted)+1:]
+		case 1:
+			j := 0
+			for j < len(rest) && rest[j] != ']' {
+				j++
+			}
+			vrt.Assert(j < len(rest), "the region of a string is closed")
+			vrt.Assert(decodesTo(rest[:j], p), "an untrusted string is escaped whatever was written before it")
+			rest = rest[j+1:]
+		case 2:
+			vrt.Assert(rest[0] == ']', "nil prints nothing")
+			rest = rest[1:]
+		default:
+			vrt.Assert(len(rest) >= 2 && rest[:2] == "7]", "a number prints its digits")
+			rest = rest[2:]
+		}
+	}
+	vrt.Assert(rest == "", "nothing else is emitted")
+	vrt.Cover("done")
 }
